@@ -1,7 +1,7 @@
 /* C18: trusted model of the text that phosg builds with string_printf / operator+ in format_duration, format_size and
  * format_time, and of the few libc calls parse_size / format_time make.
  *
- * A std::string produced by string_printf is modelled by c18_text: NOT by its characters but by the sequence of printf
+ * A std::string produced by string_printf is modelled by c18_text: NOT by its characters but by a summary of the sequence of printf
  * conversions that produced it (one token per conversion specification / literal run), plus its length.  The decimal
  * rendering of a number is libc's job (printf); what phosg decides is WHICH value is printed with WHICH conversion in WHICH
  * order -- that is what the tokens carry.  props/C18.py (class PrintfLowering) parses the format string of every
@@ -20,37 +20,43 @@
 #define STUBS_C18_TEXT_H
 #include "contracts/verif.h"
 
-#define C18_MAXTOK 8
 enum { C18_LIT = 1, C18_U64 = 2, C18_STR = 3, C18_DBL = 4 };
 
-typedef struct {
-  uint8_t kind;
-  uint8_t len;        /* LIT/STR: number of characters packed in val (<= 8); U64: decimal digits of val; DBL: integer digits D */
-  uint8_t width;      /* U64: minimum field width */
-  uint8_t zero;       /* U64: flag '0' */
-  int prec;           /* DBL: digits after the decimal point (0: no point) */
-  uint64_t val;       /* U64: the value; LIT/STR: characters, first character in the low byte */
-  double dval;        /* DBL: the value handed to printf */
-} c18_tok;
-
+/* All members are scalars on purpose (no arrays: every member stays a separate symbol of the verifier on every path). */
 typedef struct {
   size_t len;                 /* std::string::size() */
-  uint32_t ntok;
-  c18_tok tok[C18_MAXTOK];
-  /* recogniser of the duration grammar [d:][h:][m:]s[.f], advanced by every appended token (specification side: see
-   * contracts/C18_duration.h for the clauses that read it).  integer ':' ... then optional literal '0's then one %f token */
+  /* ---- shape: which conversions, in which order ---- */
+  uint8_t ntok;               /* number of tokens (conversion specifications / literal runs of <= 8 characters / %s arguments) */
+  uint32_t shape;             /* their kinds, one octal digit per token, first token most significant (model limit: 10 tokens) */
+  uint8_t nlit;               /* literal runs + %s arguments */
+  uint64_t lit0, lit1, lit2;  /* characters of the first three of them, first character in the low byte */
+  uint8_t lit0n, lit1n, lit2n;
+  uint8_t nu64;               /* %u conversions; the first one: */
+  uint64_t u64_val; uint8_t u64_width, u64_zero;
+  uint8_t ndbl;               /* %f conversions; the first one: */
+  int dbl_prec;               /* digits after the decimal point (0: no point) */
+  uint8_t dbl_digits;         /* integer digits D */
+  double dbl_val;             /* the value handed to printf */
+  bool dbl_is_ratio;          /* ... which is the result of the last c18_ratio / c18_ratiof, */
+  uint64_t dbl_num, dbl_den;  /* of this numerator and denominator */
+  /* ---- recogniser of the duration grammar [d:][h:][m:]s[.f], advanced by every appended token (specification side: see
+   * contracts/C18_duration.h for the clauses that read it):  (integer ':')* then optional literal '0's then one %f token ---- */
   bool d_bad;                 /* the text left the grammar */
   uint8_t d_nf;               /* integer fields completed by a ':' so far */
-  uint64_t d_f[3];            /* their values, left to right */
-  bool d_f2[3];               /* field i is rendered as exactly two characters, zero padded */
+  uint64_t d_f0, d_f1, d_f2;  /* their values, left to right */
+  bool d_two0, d_two1, d_two2;/* field i is rendered as exactly two characters, zero padded */
   bool d_pend;                /* an integer token waits for its ':' */
   uint64_t d_pv; bool d_p2;
   uint8_t d_lead;             /* literal '0' characters seen since the last ':' (padding of the seconds) */
   bool d_sec;                 /* the seconds token has been appended */
   uint8_t d_sec_lead;         /* '0' characters in front of it */
-  uint8_t d_sec_digits;       /* its own integer digits */
-  int d_sec_prec;
-  double d_sec_v;
+  /* evaluated when the seconds token is appended -- on every path separately, before the paths of the caller merge, so that
+   * the products below are plain products of the printed values: the last three integer fields read as days / hours / minutes,
+   * the text's value in microseconds  d_total = days*86400e6 + hours*3600e6 + minutes*60e6 + (numerator of the seconds), and
+   * whether that sum is exact (no wrap-around) */
+  uint64_t d_day, d_hr, d_min;
+  uint64_t d_total;
+  bool d_exact;
 } c18_text;
 
 /* ---- ghost record of the last "(double)(num) / den" evaluation (c18_ratio): lets the contracts speak about the integer
@@ -59,18 +65,22 @@ extern unsigned g_ratio_calls;
 extern uint64_t g_ratio_num, g_ratio_den;
 extern double g_ratio_val;
 
-/* C++: static_cast<double>(num) / den  with an unsigned long long den (usual arithmetic conversions: den -> double).
- * The body is the IEEE-754 division itself; the contract (the ghosts + the range facts the callers' proofs need: a quotient of
- * a numerator below 60 * 10^6 by 10^6 is a double in [0, 60)) is PROVED on that body by its own obligation group and then used
- * in place of the divider in the proofs of the callers. */
-double c18_ratio(uint64_t num, uint64_t den)
+/* IEEE-754 binary64 division of two converted 64-bit unsigned integers.  The body is the division itself; the contract (the
+ * range facts the callers' proofs need: the quotient is a number in [0, 2^64]; a numerator below 60 * 10^6 divided by 10^6
+ * gives a double below 60) is PROVED on that body by its own obligation group and then used in place of the divider. */
+double c18_fdiv(uint64_t num, uint64_t den)
 __CPROVER_requires(1)
-__CPROVER_ensures(g_ratio_calls == __CPROVER_old(g_ratio_calls) + 1 && g_ratio_num == num && g_ratio_den == den)
-__CPROVER_ensures(den != 0 ==> (__CPROVER_return_value == g_ratio_val && __CPROVER_return_value >= 0.0 && __CPROVER_return_value <= 18446744073709551616.0))
+__CPROVER_ensures(den != 0 ==> (__CPROVER_return_value >= 0.0 && __CPROVER_return_value <= 18446744073709551616.0))
 __CPROVER_ensures((den == 1000000 && num < 60000000) ==> __CPROVER_return_value < 60.0)
-__CPROVER_assigns(g_ratio_calls, g_ratio_num, g_ratio_den, g_ratio_val)
+__CPROVER_assigns()
 {
-  double r = (double)num / (double)den;
+  return (double)num / (double)den;
+}
+/* C++: static_cast<double>(num) / den  with an unsigned long long den (usual arithmetic conversions: den -> double);
+ * records numerator, denominator and result of the division in the ghosts */
+static inline double c18_ratio(uint64_t num, uint64_t den)
+{
+  double r = c18_fdiv(num, den);
   g_ratio_calls++; g_ratio_num = num; g_ratio_den = den; g_ratio_val = r;
   return r;
 }
@@ -98,34 +108,50 @@ static inline void c18_d_char(c18_text* t, char c)
 {
   if (c == ':') {
     if (!t->d_pend || t->d_sec || t->d_nf >= 3) t->d_bad = 1;
-    else { t->d_f[t->d_nf] = t->d_pv; t->d_f2[t->d_nf] = t->d_p2; t->d_nf++; t->d_pend = 0; }
+    else {
+      if (t->d_nf == 0) { t->d_f0 = t->d_pv; t->d_two0 = t->d_p2; }
+      else if (t->d_nf == 1) { t->d_f1 = t->d_pv; t->d_two1 = t->d_p2; }
+      else { t->d_f2 = t->d_pv; t->d_two2 = t->d_p2; }
+      t->d_nf++; t->d_pend = 0;
+    }
   } else if (c == '0') {
     if (t->d_pend || t->d_sec || t->d_lead >= 4) t->d_bad = 1; else t->d_lead++;
   } else {
     t->d_bad = 1;
   }
 }
-static inline void c18_d_sec(c18_text* t, double v, int prec, unsigned digits)
+static inline void c18_d_sec(c18_text* t, uint64_t num)
 {
   if (t->d_pend || t->d_sec) t->d_bad = 1;
-  t->d_sec = 1; t->d_sec_lead = t->d_lead; t->d_lead = 0; t->d_sec_digits = digits; t->d_sec_prec = prec; t->d_sec_v = v;
+  t->d_sec = 1; t->d_sec_lead = t->d_lead; t->d_lead = 0;
+  t->d_min = t->d_nf == 0 ? 0 : t->d_nf == 1 ? t->d_f0 : t->d_nf == 2 ? t->d_f1 : t->d_f2;
+  t->d_hr = t->d_nf <= 1 ? 0 : t->d_nf == 2 ? t->d_f0 : t->d_f1;
+  t->d_day = t->d_nf <= 2 ? 0 : t->d_f0;
+  {
+    uint64_t w1 = t->d_day * 86400000000ull, w2 = t->d_hr * 3600000000ull, w3 = t->d_min * 60000000ull;
+    uint64_t s1 = w1 + w2, s2 = s1 + w3, s3 = s2 + num;
+    t->d_total = s3;
+    t->d_exact = t->d_day <= 213503982ull && t->d_hr <= 5124095576ull && t->d_min <= 307445734561ull   /* products below 2^64 */
+                 && s1 >= w1 && s2 >= s1 && s3 >= s2;                                                    /* sums without carry out */
+  }
 }
 
 /* ---- text construction ---- */
 static inline void c18_begin(c18_text* t)
 {
-  t->len = 0; t->ntok = 0;
-  t->d_bad = 0; t->d_nf = 0; t->d_pend = 0; t->d_lead = 0; t->d_sec = 0; t->d_sec_lead = 0; t->d_sec_digits = 0;
-  t->d_sec_prec = 0; t->d_sec_v = 0.0; t->d_pv = 0; t->d_p2 = 0;
-  t->d_f[0] = 0; t->d_f[1] = 0; t->d_f[2] = 0; t->d_f2[0] = 0; t->d_f2[1] = 0; t->d_f2[2] = 0;
+  t->len = 0; t->ntok = 0; t->shape = 0;
+  t->nlit = 0; t->lit0 = 0; t->lit1 = 0; t->lit2 = 0; t->lit0n = 0; t->lit1n = 0; t->lit2n = 0;
+  t->nu64 = 0; t->u64_val = 0; t->u64_width = 0; t->u64_zero = 0;
+  t->ndbl = 0; t->dbl_prec = 0; t->dbl_digits = 0; t->dbl_val = 0.0; t->dbl_is_ratio = 0; t->dbl_num = 0; t->dbl_den = 0;
+  t->d_bad = 0; t->d_nf = 0; t->d_f0 = 0; t->d_f1 = 0; t->d_f2 = 0; t->d_two0 = 0; t->d_two1 = 0; t->d_two2 = 0;
+  t->d_pend = 0; t->d_pv = 0; t->d_p2 = 0; t->d_lead = 0; t->d_sec = 0; t->d_sec_lead = 0;
+  t->d_day = 0; t->d_hr = 0; t->d_min = 0; t->d_total = 0; t->d_exact = 0;
 }
-static inline c18_tok* c18_new_tok(c18_text* t)
+static inline void c18_new_tok(c18_text* t, unsigned kind)
 {
-  __CPROVER_assert(t->ntok < C18_MAXTOK, "model limit: a text has at most C18_MAXTOK printf tokens");
-  c18_tok* k = &t->tok[t->ntok < C18_MAXTOK ? t->ntok : C18_MAXTOK - 1];
+  __CPROVER_assert(t->ntok < 10, "model limit: a text has at most 10 printf tokens");
   t->ntok++;
-  k->kind = 0; k->len = 0; k->width = 0; k->zero = 0; k->prec = 0; k->val = 0; k->dval = 0.0;
-  return k;
+  t->shape = t->shape * 8 + kind;
 }
 static inline void c18_d_run(c18_text* t, uint64_t packed, unsigned n)
 {
@@ -138,18 +164,21 @@ static inline void c18_d_run(c18_text* t, uint64_t packed, unsigned n)
   if (n > 6) c18_d_char(t, (char)(packed >> 48));
   if (n > 7) c18_d_char(t, (char)(packed >> 56));
 }
-/* a run of 1..8 literal characters of the format string (first character in the low byte) */
-static inline void c18_put_lit(c18_text* t, uint64_t packed, unsigned n)
+static inline void c18_run(c18_text* t, unsigned kind, uint64_t packed, unsigned n)
 {
-  c18_tok* k = c18_new_tok(t);
-  k->kind = C18_LIT; k->len = n; k->val = packed;
+  c18_new_tok(t, kind);
+  if (t->nlit == 0) { t->lit0 = packed; t->lit0n = n; }
+  else if (t->nlit == 1) { t->lit1 = packed; t->lit1n = n; }
+  else if (t->nlit == 2) { t->lit2 = packed; t->lit2n = n; }
+  if (t->nlit < 255) t->nlit++;
   t->len += n;
   c18_d_run(t, packed, n);
 }
+/* a run of 1..8 literal characters of the format string (first character in the low byte) */
+static inline void c18_put_lit(c18_text* t, uint64_t packed, unsigned n) { c18_run(t, C18_LIT, packed, n); }
 /* %s */
 static inline void c18_put_cstr(c18_text* t, const char* s)
 {
-  c18_tok* k = c18_new_tok(t);
   unsigned n = 0; uint64_t packed = 0;
   if (s[0] != 0) {
     n = 1; packed = (uint8_t)s[0];
@@ -158,28 +187,32 @@ static inline void c18_put_cstr(c18_text* t, const char* s)
       __CPROVER_assert(s[2] == 0, "model limit: %s arguments have at most 2 characters");
     }
   }
-  k->kind = C18_STR; k->len = n; k->val = packed;
-  t->len += n;
-  c18_d_run(t, packed, n);
+  c18_run(t, C18_STR, packed, n);
 }
 /* %[0][width]u / lu / zu */
 static inline void c18_put_u64(c18_text* t, uint64_t v, unsigned width, unsigned zero)
 {
-  c18_tok* k = c18_new_tok(t);
   unsigned nd = C18_NDIGITS(v);
   unsigned chars = nd < width ? width : nd;
-  k->kind = C18_U64; k->len = nd; k->width = width; k->zero = zero; k->val = v;
+  c18_new_tok(t, C18_U64);
+  if (t->nu64 == 0) { t->u64_val = v; t->u64_width = width; t->u64_zero = zero; }
+  if (t->nu64 < 255) t->nu64++;
   t->len += chars;
   c18_d_int(t, v, chars, nd, zero);
 }
 unsigned nondet_c18_unsigned(void);
 char nondet_c18_char(void);
-int nondet_c18_int(void);
-size_t nondet_c18_size(void);
+static inline void c18_dbl(c18_text* t, int prec, unsigned d, double v, bool is_ratio, uint64_t num, uint64_t den)
+{
+  c18_new_tok(t, C18_DBL);
+  if (t->ndbl == 0) { t->dbl_prec = prec; t->dbl_digits = d; t->dbl_val = v; t->dbl_is_ratio = is_ratio; t->dbl_num = num; t->dbl_den = den; }
+  if (t->ndbl < 255) t->ndbl++;
+  t->len += d + (prec > 0 ? 1 + (size_t)prec : 0);
+  c18_d_sec(t, num);
+}
 /* %.*lf / %.Pf  (prec < 0: precision omitted = 6) */
 static inline void c18_put_double(c18_text* t, int prec, double v)
 {
-  c18_tok* k = c18_new_tok(t);
   __CPROVER_assert(v >= 0.0 && v <= 1e20, "model limit: %f is modelled for 0 <= v <= 1e20 only");
   if (prec < 0) prec = 6;
   unsigned d = nondet_c18_unsigned();
@@ -188,38 +221,24 @@ static inline void c18_put_double(c18_text* t, int prec, double v)
   __CPROVER_assume(!(v >= 10.0) || d >= 2);
   __CPROVER_assume(!(v < 99.5) || d <= 2);
   __CPROVER_assume(!(v >= 100.0) || d >= 3);
-  k->kind = C18_DBL; k->len = d; k->prec = prec; k->dval = v;
-  t->len += d + (prec > 0 ? 1 + (size_t)prec : 0);
-  c18_d_sec(t, v, prec, d);
+  c18_dbl(t, prec, d, v, g_ratio_calls >= 1 && v == g_ratio_val, g_ratio_num, g_ratio_den);
 }
-/* operator+(std::string, const std::string&): the tokens of o are appended (model limit: o has at most 2 tokens) */
-static inline void c18_put_tok(c18_text* t, const c18_tok* s)
-{
-  if (s->kind == C18_LIT || s->kind == C18_STR) {
-    c18_tok* k = c18_new_tok(t); *k = *s; t->len += s->len; c18_d_run(t, s->val, s->len);
-  } else if (s->kind == C18_U64) {
-    unsigned chars = s->len < s->width ? s->width : s->len;
-    c18_tok* k = c18_new_tok(t); *k = *s; t->len += chars; c18_d_int(t, s->val, chars, s->len, s->zero);
-  } else {
-    c18_tok* k = c18_new_tok(t); *k = *s; t->len += s->len + (s->prec > 0 ? 1 + (size_t)s->prec : 0);
-    c18_d_sec(t, s->dval, s->prec, s->len);
-  }
-}
+#define C18_IS_ONE_DBL(t) ((t)->ntok == 1 && (t)->ndbl == 1)
+/* operator+(std::string, const std::string&) (model limit: the right operand is the text of a single %f conversion) */
 static inline void c18_append(c18_text* t, const c18_text* o)
 {
-  __CPROVER_assert(o->ntok <= 2, "model limit: operator+ with a right operand of at most 2 printf tokens");
-  if (o->ntok > 0) c18_put_tok(t, &o->tok[0]);
-  if (o->ntok > 1) c18_put_tok(t, &o->tok[1]);
+  __CPROVER_assert(C18_IS_ONE_DBL(o), "model limit: operator+ is modelled for a right operand that is the text of one %f conversion");
+  c18_dbl(t, o->dbl_prec, o->dbl_digits, o->dbl_val, o->dbl_is_ratio, o->dbl_num, o->dbl_den);
 }
 static inline size_t c18_size(const c18_text* t) { return t->len; }
 /* std::string::at on the text of a single %f conversion */
 static inline char c18_at(const c18_text* t, size_t i)
 {
   if (i >= t->len) { verif_exc = EXC_out_of_range; return 0; }
-  __CPROVER_assert(t->ntok == 1 && t->tok[0].kind == C18_DBL, "model limit: at() is modelled on the text of one %f conversion only");
+  __CPROVER_assert(C18_IS_ONE_DBL(t), "model limit: at() is modelled on the text of one %f conversion only");
   char dg = nondet_c18_char();
   __CPROVER_assume(dg >= '0' && dg <= '9');
-  return (t->tok[0].prec > 0 && i == t->tok[0].len) ? '.' : dg;
+  return (t->dbl_prec > 0 && i == t->dbl_digits) ? '.' : dg;
 }
 
 /* ---- libc used by parse_size ---- */
